@@ -78,6 +78,12 @@ class Engine(object):
         self._exprs = {}
         self._frefs = {}
         self.spec_modules = set(["contracts.specfuns"])
+        try:
+            import json as _json
+            with open(os.path.join(VERIF, "contracts", "loop_headers.json")) as f:
+                self.loop_headers = _json.load(f)
+        except (IOError, ValueError):
+            self.loop_headers = {}
         self.prims = {}
         self._install_prims()
         self.load_contracts()
